@@ -277,6 +277,7 @@ def gen_config(cs, tier='quick', force=None):
     # a Monte-Carlo run is sometimes preceded, in the same driver process, by an earlier small run (a history of runs):
     # whatever that leaves behind in the parent is inherited by the workers forked for the run under test
     c['pre_run'] = [None, None, None, 1, 2, 3][cs.choose(6, 'pre_run')]
+    c['pre_same_out'] = cs.choose(2, 'pre_same_out') == 1      # the earlier run wrote to the very same result file
     # sometimes a second, independent Monte-Carlo driver process runs at the same time on the same machine (same temp
     # directory, a base input file with the same name in another project directory, its own settings and result file)
     c['second_driver'] = cs.choose(5, 'second_driver') == 4
@@ -305,6 +306,8 @@ def gen_config(cs, tier='quick', force=None):
             sp[i] = [1.0, 2.0, 4.0][cs.choose(3, 'speed')]
     c['speeds'] = sp
     c['pid_gap'] = [0, 0, 7, 40][cs.choose(4, 'pid_gap')]
+    c['spelling'] = [0, 0, 1, 2, 3][cs.choose(5, 'spelling')]
+    c['out_name'] = ['MC_Result.txt', 'MC_Result.txt', 'mc.result.v2.txt', 'RESULT', 'r.out', 'out.d/res.txt'][cs.choose(6, 'out_name')]
     c['clock0'] = cs.choose(1000, 'clock0s') + cs.choose(1000, 'clock0ms') / 1000.0
     c['faults'] = []
     if c['iter_fail']:
@@ -344,15 +347,37 @@ def _base_value(text, name):
 
 
 def settings_text(c):
-    lines = []
+    """the settings file, in one of several spellings that the pinned parser treats alike: padded with blanks and tabs, with
+    words after the distribution name ('uniform distribution'), integral arguments written as integers, the three kinds of
+    line interleaved (the relative order of the INPUT lines and of the OUTPUT lines - the header order - is kept), a
+    trailing comma after the iteration count"""
+    sp = c.get('spelling', 0)
+    ins, outs = [], []
     for i in c['inputs']:
         args = [repr(a) if isinstance(a, float) else str(a) for a in i['args']]
+        if sp in (2, 3):
+            args = [str(int(a)) if isinstance(a, float) and a == int(a) and abs(a) < 1e15 else s_ for a, s_ in zip(i['args'], args)]
         if i.get('hash_arg') is not None:
             args[i['hash_arg']] = '#'
-        lines.append('INPUT, ' + i['name'] + ', ' + i['dist'] + ', ' + ', '.join(args))
+        dist = i['dist'] + (' distribution' if sp == 2 else '')
+        if sp == 1:
+            ins.append('INPUT,\t ' + i['name'] + '  ,  ' + dist + ' ,   ' + ' ,\t'.join(args) + '  ')
+        else:
+            ins.append('INPUT, ' + i['name'] + ', ' + dist + ', ' + ', '.join(args))
     for o in c['outputs']:
-        lines.append('OUTPUT, ' + o)
-    lines.append(f"ITERATIONS, {c['iterations']}")
+        outs.append(('OUTPUT,   ' if sp == 1 else 'OUTPUT, ') + o + ('  ' if sp == 1 else ''))
+    it = f"ITERATIONS, {c['iterations']}" + (',' if sp == 3 else '')
+    if sp == 3:
+        # iteration count first, then OUTPUT and INPUT lines alternating
+        lines = [it]
+        a, b = list(outs), list(ins)
+        while a or b:
+            if a:
+                lines.append(a.pop(0))
+            if b:
+                lines.append(b.pop(0))
+    else:
+        lines = ins + outs + [it]
     return '\n'.join(lines) + '\n'
 
 
@@ -388,7 +413,8 @@ def run_one(payload):
         tempfile.tempdir = os.path.join(sandbox, 'tmp')
         inp = os.path.join(work, 'base_input.txt')
         stg = os.path.join(work, 'mc_settings.txt')
-        out = os.path.join(work, 'MC_Result.txt')
+        out = os.path.join(work, c.get('out_name', 'MC_Result.txt'))
+        os.makedirs(os.path.dirname(out), exist_ok=True)
         with open(inp, 'w') as f:
             f.write(base_text(c))
         with open(stg, 'w') as f:
@@ -428,7 +454,8 @@ def run_one(payload):
                     f0.write(settings_text(dict(c, iterations=c['pre_run'])))
                 try:
                     GeophiresMonteCarloClient().get_monte_carlo_result(
-                        MonteCarloRequest(prog, Path(inp), Path(stg0), Path(os.path.join(work, 'pre', 'MC_Pre.txt'))))
+                        MonteCarloRequest(prog, Path(inp), Path(stg0),
+                                          Path(out if c.get('pre_same_out') else os.path.join(work, 'pre', 'MC_Pre.txt'))))
                 except BaseException as e:  # noqa: BLE001
                     if isinstance(e, (K.SimFatal, K.ProcKilled)):
                         raise
@@ -1008,7 +1035,7 @@ def _provenance(raw, notes, out_norm, pr):
 def _check_stats(rec, c, pr, out_path, V):
     outputs = c['outputs']
     rows = [r for r in pr['rows'] if '-9999.0' not in r[3] and len(r[3].strip()) > 10]
-    jpath = os.path.splitext(out_path)[0] + '.json'
+    jpath = os.path.splitext(out_path)[0] + '.json'       # == pathlib's with_suffix('.json'): the last suffix is replaced, a name without one gets it
     try:
         with K._real['open'](jpath) as f:
             js = json.load(f)
